@@ -146,6 +146,7 @@ def run_case(c):
     if c['reach'] == 'info-link':
         W.file('/store/files/%s' % nm, 'decoy outside the trash\n').file('/store/files/bystander', 'decoy\n')
     W.file(phys + '/keepme', 'beside files/ and info/: not a trash entry\n')
+    W.file(phys + '/directorysizes', '4096 1600000000 victim\n')          # the size cache of trash spec 1.0: beside files/ and info/ as well
     if c.get('stray'):
         W.file('%s/%s' % (infodir, c['stray']), '[Trash Info]\nPath=%s\nDeletionDate=2019-01-01T00:00:00\n' % (loc + '-stray'))
     W.file('%s/%s.trashinfo' % (infodir, nm), '[Trash Info]\nPath=%s\nDeletionDate=2020-01-01T00:00:00\n' % loc)
